@@ -144,6 +144,25 @@ inline void Sweep::unified_neighbours()
       auto* p = m->param(lex.get_identifier(u8"deduced_p"), au); p->init = &P.X(); auto* e2 = lex.make_id_expr(*p);
       add_node("make_id_expr(parameter typed auto, default attached)", e2, Category_code::Id_expr, [e2, tp = static_cast<const Type*>(&au)](Ck& c) { c.type_is(*e2, *tp, "id-expression of a declaration: that declaration's type"); });
    }
+   // a template declared twice, each declaration with its own mapping, the first one recorded as the definition: every
+   // declaration keeps reporting its own mapping, parameters and result
+   {
+      impl::Warehouse<Type> w; w.push_back(L.typename_type());
+      auto& fa = lex.get_forall(lex.get_product(w), L.class_type());
+      auto* holder = lex.make_namespace(*unit.global_region());
+      auto& nm = lex.get_identifier(u8"twice_declared_template");
+      impl::Template* ts[2]; impl::Mapping* ms[2];
+      for (int i = 0; i < 2; ++i) {
+         ts[i] = holder->body.scope.make_primary_template(nm, fa);
+         ms[i] = lex.make_mapping(holder->body, Mapping_level { 1 }); ms[i]->param(*P.idents[std::size_t(i)], L.typename_type()); ms[i]->body = P.exprs[std::size_t(i)];
+         ts[i]->init = ms[i];
+      }
+      ts[0]->decl_data.master_data->def = ts[0];
+      for (int i = 0; i < 2; ++i)
+         add_node(i ? "make_primary_template(redeclaration, definition elsewhere)" : "make_primary_template(first declaration, recorded as definition)", ts[i], Category_code::Template, [t = ts[i], m = ms[i], d = ts[0]](Ck& c) {
+            c.same("mapping", &t->mapping(), static_cast<const Mapping*>(m)); c.same("parameters", &t->parameters(), &m->parameters()); c.same("result", &t->result(), &m->result());
+            c.opt("initializer", t->initializer(), &m->result()); c.opt("definition", t->definition(), static_cast<const Template*>(d)); });      // a template's initializer is its mapping's result (as implemented and documented)
+   }
    // spellings that are prefixes of one another, through every spelling-keyed constructor
    {
       const char* sp[] = { "ab", "abc", "a", "ab", "abd", "", "abc" };
